@@ -84,6 +84,8 @@ func alphabet(full, multi bool) []symbol {
 			on(1, sym("play+s", "play", "r")),
 			on(1, sym("pause+s", "pause", "r")),
 			on(1, setup("setup1-udp+s", "r", "1", "u.0.0.1.0.0")),
+			on(1, setup("setup0-udp(same-ports)", "n", "0", "u.0.1.1.0.0")),
+			on(1, setup("setup0-udp(other-ports)", "n", "0", "u.0.1.2.0.0")),
 			symbol{name: "c1:close", conn: 1, close: true},
 			on(2, sym("getparameter+s", "getparameter", "r")),
 		)
@@ -171,10 +173,11 @@ func (s symbol) op(v *view) (string, bool) {
 // random sequences: mostly protocol-following, with arbitrary requests mixed in
 
 type randGen struct {
-	rng   *rand.Rand
-	cfg   Cfg
-	max   int
-	queue []string // ops already decided (a pipelined batch)
+	nPorts int
+	rng    *rand.Rand
+	cfg    Cfg
+	max    int
+	queue  []string // ops already decided (a pipelined batch)
 }
 
 func (g *randGen) pick(xs ...string) string { return xs[g.rng.IntN(len(xs))] }
@@ -193,7 +196,13 @@ func (g *randGen) offered() []string {
 }
 
 func (g *randGen) alt(proto string, mode int) string {
-	ports, il, ilA := 1, 0, 0
+	il, ilA := 0, 0
+	// a fresh client port pair most of the time, sometimes one that was used before
+	g.nPorts++
+	ports := g.nPorts
+	if g.nPorts > 1 && g.chance(12) {
+		ports = 1 + g.rng.IntN(g.nPorts-1)
+	}
 	if g.chance(4) {
 		ports = 0
 	}
